@@ -105,16 +105,19 @@ func checkRuntime(c *Ctx, prop string) {
 			res.Count("configErr/" + r.configErr)
 		}
 		if cfg.saturate {
-			full, rejectedWhileFull := false, false
+			full, rejectedWhileFull, srcErrWhileFull := false, false, false
 			for _, l := range r.trace {
 				if strings.Contains(l, fmt.Sprintf(" q=%d/", rtQueueCap)) {
 					full = true
 					if strings.Contains(l, "mon=submit:verifyErr") || strings.Contains(l, "mon=submit:stackErr") {
 						rejectedWhileFull = true
 					}
+					if strings.Contains(l, "mon=submit:srcErr") || strings.Contains(l, "mon=got:err") || strings.Contains(l, "mon=submitSrcErr") {
+						srcErrWhileFull = true
+					}
 				}
 			}
-			res.Count(fmt.Sprintf("saturate/queue-full=%v,rejected-update-while-full=%v", full, rejectedWhileFull))
+			res.Count(fmt.Sprintf("saturate/queue-full=%v,rejected-update-while-full=%v,source-error-while-full=%v", full, rejectedWhileFull, srcErrWhileFull))
 		}
 		rejected := 0
 		for _, u := range r.updates {
@@ -448,6 +451,27 @@ func rtOracle(r *rtRun, prop string) []string {
 				if r.cfg.delay && !slotsValid(cfg) {
 					bad("EnableVerification succeeded on a config that does not verify: %s", cfg)
 				}
+			}
+		}
+		// an EnableVerification call that reports a verification failure was answered for ITS OWN request: the
+		// monitor ran a failing Verify between the call's begin and its return (an answer left over from an earlier,
+		// abandoned call would break "on failure returns the error and ... can be retried")
+		for _, ret := range r.returns {
+			if ret.op.Kind != "enable" || ret.res != "enErr" || ret.op.Begin == 0 {
+				continue
+			}
+			end := ret.retAt
+			if end == 0 {
+				end = ret.step
+			}
+			found := false
+			for _, v := range r.verifyCalls {
+				if !v.ok && v.step >= ret.op.Begin-1 && v.step <= end {
+					found = true
+				}
+			}
+			if !found {
+				bad("EnableVerification (begun at step %d, returned at step %d) reported a verification failure, but no failing Verify ran in between: the answer belongs to another call", ret.op.Begin, end)
 			}
 		}
 		// a rejected update's error reaches OnWatchedError whenever the monitor announced it (it announces it
